@@ -276,6 +276,12 @@ func (r *Report) writeEvidence(verif, level string, wall float64, violations int
 				m = map[string]float64{}
 				bySolver[o.Solver] = m
 			}
+			if len(o.Confirmed) > 0 {
+				m["confirmed_by_another_solver"]++
+			}
+			if len(o.Confirmed) >= 2 {
+				m["confirmed_by_all_three"]++
+			}
 			m["count"]++
 			m["seconds"] += o.Secs
 			if o.Secs > m["max_seconds"] {
